@@ -176,11 +176,11 @@ func genTmplURI(r *vh.Rand, pp string) string {
 
 func raceCases(ninst, nshots int) []string {
 	var out []string
-	for _, p := range []string{"http", "httpscen", "grpc", "grpcscen"} {
+	for _, p := range []string{"http", "httpscen", "grpc", "grpcscen", "ammo"} {
 		// http/grpc: shared client off/on; scenarios: [next] only / +[rand] / +randString / +randInt,uuid;
 		// suffix c: the shared rps schedule is a composite of many short parts
 		vs := map[string][]string{"http": {"0", "1c"}, "httpscen": {"0c", "1", "2", "3c"},
-			"grpc": {"0c", "1"}, "grpcscen": {"0", "1c", "2c", "3"}}[p]
+			"grpc": {"0c", "1"}, "grpcscen": {"0", "1c", "2c", "3"}, "ammo": {"0", "1"}}[p]
 		for _, v := range vs {
 			out = append(out, fmt.Sprintf("race %s %d %d %s", p, ninst, nshots, v))
 		}
@@ -204,6 +204,13 @@ func gen(r *vh.Rand, tier string) []string {
 		n = 900
 	}
 	var out []string
+	// recycling provider: discard_overflow with a first shot stalled beyond the 2 s discard window,
+	// the same without discard, and without a stall
+	for i := 0; i < 1+n/300; i++ {
+		out = append(out, fmt.Sprintf("ammo %d %d 2800 2300 1", r.Range(2, 6), r.PickInt([]int{200, 300, 400})))
+		out = append(out, fmt.Sprintf("ammo %d %d 2800 2300 0", r.Range(2, 6), r.PickInt([]int{200, 300})))
+		out = append(out, fmt.Sprintf("ammo %d %d 1200 0 1", r.Range(2, 6), r.PickInt([]int{200, 400})))
+	}
 	for i := 0; i < n/2; i++ {
 		out = append(out, fmt.Sprintf("own %d %d %s", r.Range(1, 8), r.Range(0, 40), vh.B(r.Bool())))
 		out = append(out, fmt.Sprintf("sched %d %d %s", r.Range(2, 8), r.Range(4, 40), vh.B(r.Chance(1, 4))))
